@@ -223,6 +223,11 @@ def completeness_rule(repo: Repo, rep: Report, rid: str) -> None:
         rep.check(ok, rid, f"{st.key}:field {what}", f"every field gets its {what}", f"a structure field can be skipped without its {what}", st.loc(lp.ast))
     rep.check(norm(lp.ast.iter) == "structure.fields.items()", rid, f"{st.key}:fields", "iterates structure.fields (anonymous members folded, as attribute access sees them)",
               f"field loop iterates '{norm(lp.ast.iter)}'", st.loc(lp.ast))
+    # a nested structure is declared inline exactly when the cstruct object does not provide it globally
+    inl = [x for x in walk_body(st.node.body) if isinstance(x, ast.If) and any(isinstance(c, ast.Call) and call_name(c) == "generate_structure_stub" for s2 in x.body for c in ast.walk(s2))]
+    rep.check(len(inl) == 1 and "typedefs" in norm(inl[0].test) and "not in" in norm(inl[0].test) and "Structure" in norm(inl[0].test), rid, f"{st.key}:inline-decision",
+              "nested structures are inlined iff their name is not in cs.typedefs", f"the inline decision is '{short(inl[0].test, 80) if inl else None}': a nested structure "
+              f"that is neither anonymous nor registered on the cstruct object would be referenced as a global type the object does not provide", st.loc())
     en = repo.func("tools/stubgen.py", "generate_enum_stub")
     rep.check(any(isinstance(x, (ast.GeneratorExp, ast.ListComp)) and "__members__" in norm(x.generators[0].iter) for x in walk_body(en.node.body)), rid,
               f"{en.key}:members", "every member of the enum is emitted", "enum members are no longer taken from __members__", en.loc())
@@ -287,7 +292,7 @@ def literal_rule(repo: Repo, rep: Report, rid: str) -> None:
         raise AnalysisError("generate_cstruct_stub: constants loop not found")
     lp = loops[0]
     vname = lp.target.elts[1].id if isinstance(lp.target, ast.Tuple) and len(lp.target.elts) == 2 else "value"
-    normalises = any(isinstance(s, ast.If) and "isinstance" in norm(s.test) and vname in names_loaded(s.test) and ("Enum" in norm(s.test) or "Flag" in norm(s.test))
+    normalises = any(isinstance(s, ast.If) and "isinstance" in norm(s.test) and vname in names_loaded(s.test) and ("Enum" in norm(s.test) and "Flag" in norm(s.test))
                      and any(isinstance(a, ast.Assign) and norm(a.targets[0]) == vname for a in s.body) for s in lp.body)
     for fi, x, src, kind in writers:
         key = f"{fi.key}:consts <- {short(x, 50)}"
